@@ -47,6 +47,8 @@ type replayOutcome struct {
 // harnesses (go test -overlay) and returns the outcome per file.
 // instrumented writes yield-instrumented copies of the package's own source
 // files into dir and returns the overlay entries for them.
+var instrCache = map[string][]byte{} // the syntax trees are rewritten in place: do it once per process
+
 func instrumented(pp *packages.Package, dir string) (map[string]string, error) {
 	out := map[string]string{}
 	in := &instr.Instrumenter{Fset: pp.Fset, Info: pp.TypesInfo}
@@ -56,9 +58,14 @@ func instrumented(pp *packages.Package, dir string) (map[string]string, error) {
 		if strings.HasPrefix(base, "zz_verif") || strings.HasSuffix(base, "_test.go") || filepath.Dir(name) != repoDir {
 			continue
 		}
-		src, err := in.File(f)
-		if err != nil {
-			return nil, err
+		src, ok := instrCache[name]
+		if !ok {
+			var err error
+			src, err = in.File(f)
+			if err != nil {
+				return nil, err
+			}
+			instrCache[name] = src
 		}
 		dst := filepath.Join(dir, "instr_"+base)
 		if err := os.WriteFile(dst, src, 0o644); err != nil {
